@@ -512,3 +512,225 @@ Proof.
   - eexists. repeat split; try reflexivity; unfold below; simpl; lia.
   - eexists. split; [reflexivity|]. repeat split; unfold below; simpl; lia.
 Qed.
+
+(** * field writes confined to a region *)
+Lemma agree_refl P h : agree P h h.
+Proof. intros i _. auto. Qed.
+Lemma agree_trans P h1 h2 h3 : agree P h1 h2 -> agree P h2 h3 -> agree P h1 h3.
+Proof.
+  intros A B i Hi. destruct (A i Hi) as [A1 [A2 A3]]. destruct (B i Hi) as [B1 [B2 B3]].
+  repeat split; congruence.
+Qed.
+
+Lemma write_agree (P : nat -> Prop) h w :
+  (forall i, In i (touched h w) -> ~ P i) -> agree P h (apply_write h w).
+Proof.
+  intros T i Hi.
+  assert (N : forall j, In j (touched h w) -> i <> j) by (intros j Hj ->; now apply (T j)).
+  destruct w; simpl in *.
+  - destruct (hnodes h nid); simpl; auto. rewrite upd_other; auto.
+  - destruct (hedges h eid); simpl; auto. rewrite upd_other; auto.
+  - destruct (hedges h eid); simpl; auto. rewrite upd_other; auto.
+  - destruct (hedges h eid); simpl; auto. rewrite upd_other; auto.
+  - destruct (hnodes h nid); simpl; auto. rewrite upd_other; auto. apply N. simpl. auto.
+  - destruct (hnodes h nid); simpl; auto. rewrite upd_other; auto. apply N. simpl. auto.
+  - destruct (hedges h eid); simpl; auto. rewrite upd_other; auto. apply N. simpl. auto.
+  - destruct (hedges h eid); simpl; auto. rewrite upd_other; auto. apply N. simpl. auto.
+Qed.
+
+(** every write of the sequence touches only ids of the region [Q], in the store it is
+    applied to *)
+Fixpoint confined (Q : nat -> Prop) (h : heap) (ws : list hwrite) : Prop :=
+  match ws with
+  | [] => True
+  | w :: r => (forall i, In i (touched h w) -> Q i) /\ confined Q (apply_write h w) r
+  end.
+
+Theorem writes_agree (P Q : nat -> Prop) : (forall i, P i -> Q i -> False) ->
+  forall ws h, confined Q h ws -> agree P h (apply_writes h ws).
+Proof.
+  intros D. induction ws as [|w r IH]; intros h C; simpl.
+  - apply agree_refl.
+  - destruct C as [C1 C2]. eapply agree_trans; [|apply IH; exact C2].
+    apply write_agree. intros i Hi Pi. exact (D i Pi (C1 i Hi)).
+Qed.
+
+(** what a region carries is unchanged by any sequence of writes confined to a disjoint region *)
+Theorem repr_writes (P Q : nat -> Prop) h nid par t ws :
+  (forall i, P i -> Q i -> False) -> confined Q h ws ->
+  repr P h nid par t -> repr P (apply_writes h ws) nid par t.
+Proof. intros D C R. eapply repr_frame; [apply (writes_agree P Q D ws h C)|exact R]. Qed.
+
+(** editing either one never changes the other *)
+Theorem clone_edits t fuel h root k :
+  repr (below k) h root None t -> k <= hnext h -> usize t <= fuel ->
+  let h' := fst (clone_h fuel h root) in
+  let r' := snd (clone_h fuel h root) in
+  (forall ws, confined (between (hnext h) (hnext h')) h' ws ->
+              repr (below k) (apply_writes h' ws) root None t) /\
+  (forall ws, confined (below k) h' ws ->
+              repr (between (hnext h) (hnext h')) (apply_writes h' ws) r' None (clone t)).
+Proof.
+  intros R Lk Fu. destruct (clone_h_ok t fuel h root k R Lk Fu) as [m' [E [B [A [R1 R2]]]]].
+  cbv zeta. rewrite E. split; intros ws C.
+  - apply (repr_writes (below k) (between (hnext h) m')); auto.
+    intros i Hi Hj. exact (regions_disjoint k (hnext h) m' i Lk Hi Hj).
+  - apply (repr_writes (between (hnext h) m') (below k)); auto.
+    intros i Hi Hj. exact (regions_disjoint k (hnext h) m' i Lk Hj Hi).
+Qed.
+
+(** * SubTree *)
+Lemma fold_filter (F : heap -> nat -> heap) e bs : forall h,
+    fold_left (fun hh e' => if Nat.eqb e' e then hh else F hh e') bs h =
+    fold_left F (filter (fun e' => negb (Nat.eqb e' e)) bs) h.
+Proof. induction bs as [|x r IH]; intros h; simpl; auto. destruct (Nat.eqb x e); simpl; auto. Qed.
+
+Lemma slots_br_cases (P : nat -> Prop) h R nid par l : forall ns bs e',
+    slots_repr P h R nid par ns bs l -> In e' bs ->
+    (exists he, hedges h e' = Some he /\ he_left he = nid /\ P e' /\
+                forall pe pn, par = Some (pe, pn) -> e' <> pe) \/
+    (exists x, par = Some (e', x)).
+Proof.
+  induction l as [|[[ei ch]|] r IH]; intros [|x ns] [|e0 bs] e'; simpl; try tauto.
+  - intros [Pe [Ne [[he [E1 [E2 _]]] [_ Rr]]]] [<-|H].
+    + left. exists he. auto.
+    + eapply IH; eauto.
+  - intros [E Rr] [<-|H].
+    + right. eauto.
+    + eapply IH; eauto.
+Qed.
+
+Theorem subtree_h_ok t fuel h nid par k :
+  repr (below k) h nid par t ->
+  (forall pe pn, par = Some (pe, pn) -> exists hpe, hedges h pe = Some hpe /\ he_left hpe <> nid) ->
+  k <= hnext h -> usize t <= fuel ->
+  exists m', hnext (fst (subtree_h fuel h nid)) = m' /\ hnext h <= snd (subtree_h fuel h nid) < m' /\
+    agree (below k) h (fst (subtree_h fuel h nid)) /\
+    repr (below k) (fst (subtree_h fuel h nid)) nid par t /\
+    repr (between (hnext h) m') (fst (subtree_h fuel h nid)) (snd (subtree_h fuel h nid)) None
+         (copy_node true t).
+Proof.
+  destruct t as [n c sl]. intros R Hpar Lk Fu. assert (R0 := R).
+  apply repr_unfold in R. destruct R as [Pr [hr [N1 [N2 [N3 [N4 N5]]]]]].
+  unfold below in Pr, N3. set (m := hnext h) in *.
+  set (pe0 := match par with Some (pe, _) => pe | None => k end).
+  set (pn0 := match par with Some (_, pn) => pn | None => nid end).
+  unfold subtree_h. rewrite N1. unfold copy_node_h, alloc_cell. simpl. fold m.
+  set (h1 := mkH (upd (hnodes h) (S m) (mkHN (hn_name hr) m [] [])) (hedges h)
+                 (upd (hcells h) m (cell_of h (hn_com hr))) (S (S m))).
+  assert (A1 : agree (below k) h h1).
+  { intros i Hi. unfold below in Hi. unfold h1. simpl. rewrite !upd_other by lia. auto. }
+  rewrite usize_unfold in Fu.
+  (* the branches kept by the test are those that are not the parent branch *)
+  assert (Hf : filter (fun e => match hedges h e with
+                                | Some he => Nat.eqb (he_left he) nid
+                                | None => false end) (hn_br hr)
+               = filter (fun e' => negb (Nat.eqb e' pe0)) (hn_br hr)).
+  { apply filter_ext_in. intros e' He'.
+    destruct (slots_br_cases _ _ _ _ _ _ _ _ e' N5 He') as [[he [E1 [E2 [E3 E4]]]]|[x Ex]].
+    - rewrite E1, E2, Nat.eqb_refl. symmetry. apply negb_true_iff, Nat.eqb_neq.
+      unfold pe0. destruct par as [[pe pn]|]; [apply (E4 pe pn eq_refl)|unfold below in E3; lia].
+    - destruct (Hpar e' x Ex) as [hpe [H1 H2]]. rewrite H1.
+      unfold pe0. rewrite Ex. rewrite Nat.eqb_refl. simpl. now apply Nat.eqb_neq. }
+  rewrite Hf, <- (fold_filter (fun hh e => copy_rec fuel hh (S m) e) pe0 (hn_br hr) h1).
+  destruct (fold_ok fuel k pe0 pn0 nid (S m) (hn_name hr) m None
+                    sl (hn_neigh hr) (hn_br hr) h1 [] [] (S (S m)))
+    as [m' [newN [newB [Y0 [Y1 [Y2 [Y3 Y4]]]]]]]; auto; try lia.
+  { apply Forall_forall. intros [[e ch]|] _; auto. apply copy_rec_ok. }
+  { eapply slots_frame; [exact A1|]. unfold pe0, pn0. destruct par as [[pe pn]|]; auto.
+    apply slots_root_par; auto. unfold below. intros; lia. }
+  { intros pe pn X. discriminate. }
+  { unfold h1. simpl. now rewrite upd_same. }
+  cbv zeta in *.
+  set (hh := fold_left (fun hh e' => if Nat.eqb e' pe0 then hh else copy_rec fuel hh (S m) e') (hn_br hr) h1) in *.
+  assert (A2 : agree (below k) h1 hh) by (apply (stable_agree k (S (S m)) (S m)); auto; lia).
+  assert (A : agree (below k) h hh) by (eapply agree_trans; eauto).
+  destruct Y2 as [T1 [T2 T3]].
+  exists m'. split; [exact Y0|]. split; [lia|]. split; [exact A|]. split.
+  - exact (repr_frame (below k) h hh (UNode n c sl) nid par A R0).
+  - change (copy_node true (UNode n c sl)) with (UNode n c (copy_slots sl)).
+    apply repr_unfold. split; [unfold between; lia|].
+    exists (mkHN (hn_name hr) m newN newB). simpl.
+    split; [exact Y3|]. split; [exact N2|]. split; [unfold between; lia|]. split.
+    + rewrite T3 by lia. unfold h1. simpl. rewrite upd_same. now rewrite (cell_of_some h _ _ N4).
+    + eapply slots_mono; [|exact Y4]. unfold between. intros; lia.
+Qed.
+
+Theorem subtree_edits t fuel h nid par k :
+  repr (below k) h nid par t ->
+  (forall pe pn, par = Some (pe, pn) -> exists hpe, hedges h pe = Some hpe /\ he_left hpe <> nid) ->
+  k <= hnext h -> usize t <= fuel ->
+  let h' := fst (subtree_h fuel h nid) in
+  let r' := snd (subtree_h fuel h nid) in
+  (forall ws, confined (between (hnext h) (hnext h')) h' ws ->
+              repr (below k) (apply_writes h' ws) nid par t) /\
+  (forall ws, confined (below k) h' ws ->
+              repr (between (hnext h) (hnext h')) (apply_writes h' ws) r' None (copy_node true t)).
+Proof.
+  intros R Hp Lk Fu. destruct (subtree_h_ok t fuel h nid par k R Hp Lk Fu) as [m' [E [B [A [R1 R2]]]]].
+  cbv zeta. rewrite E. split; intros ws C.
+  - apply (repr_writes (below k) (between (hnext h) m')); auto.
+    intros i Hi Hj. exact (regions_disjoint k (hnext h) m' i Lk Hi Hj).
+  - apply (repr_writes (between (hnext h) m') (below k)); auto.
+    intros i Hi Hj. exact (regions_disjoint k (hnext h) m' i Lk Hj Hi).
+Qed.
+
+(** * GraftTreeOnTip: what is shared afterwards *)
+Lemma slots_add_par (P : nat -> Prop) h R nid pe pn l : forall ns bs,
+    ~ P pe ->
+    slots_repr P h R nid None ns bs l ->
+    slots_repr P h R nid (Some (pe, pn)) (ns ++ [pn]) (bs ++ [pe]) (l ++ [None]).
+Proof.
+  induction l as [|[[ei ch]|] r IH]; intros [|x ns] [|e bs] Np; simpl; try tauto.
+  - intros [Pe [_ [He [Rc Rr]]]]. split; auto. split.
+    + intros pe' pn' X. inversion X; subst. intros ->. tauto.
+    + split; auto.
+  - intros [X _]. discriminate.
+Qed.
+
+(** the graft's root keeps its id and its descendants; it gains the host's node [pn] as a last
+    neighbour through the host's branch [pe], whose right end it now is: the nodes of the graft
+    are now nodes of the host (nothing is copied, nothing is allocated) *)
+Theorem graft_h_shares h tn tr h' (Q : nat -> Prop) n c sl root :
+  graft_h h tn tr = Some h' ->
+  (* the graft: root [tr] (record [root]), everything below it in the region Q *)
+  hnodes h tr = Some root -> hn_name root = n -> hcells h (hn_com root) = Some c ->
+  slots_repr Q h (repr Q h) tr None (hn_neigh root) (hn_br root) sl ->
+  exists pe pn hpe,
+    hedges h pe = Some hpe /\ he_right hpe = tn /\ he_left hpe = pn /\
+    (pn <> tr -> ~ Q tr -> ~ Q pn -> ~ Q pe ->
+     hnext h' = hnext h /\
+     hedges h' pe = Some (mkHE pn tr (he_len hpe) (he_sup hpe) (he_pv hpe) (he_com hpe)) /\
+     (forall i, i <> pn -> i <> tr -> hnodes h' i = hnodes h i) /\
+     (forall i, i <> pe -> hedges h' i = hedges h i) /\
+     (forall i, hcells h' i = hcells h i) /\
+     repr (fun i => Q i \/ i = tr \/ i = hn_com root) h' tr (Some (pe, pn))
+          (add_up_end (UNode n c sl))).
+Proof.
+  unfold graft_h. intros G Hr Hn Hc Hs.
+  destruct (hnodes h tn) as [tip|]; [|discriminate].
+  destruct (find _ (hn_br tip)) as [pe|] eqn:Fe; [|discriminate].
+  destruct (hedges h pe) as [hpe|] eqn:Epe; [|discriminate].
+  destruct (hnodes h (he_left hpe)) as [par|] eqn:Epn; [|discriminate].
+  rewrite Hr in G.
+  destruct (index_of_nat tn (hn_neigh par)) as [idx|]; [|discriminate].
+  inversion G; subst h'. clear G.
+  apply find_some in Fe. destruct Fe as [_ Fe]. rewrite Epe in Fe. apply Nat.eqb_eq in Fe.
+  exists pe, (he_left hpe), hpe. split; auto. split; auto. split; auto.
+  intros Npt Qt Qp Qe. change (add_up_end (UNode n c sl)) with (UNode n c (sl ++ [None])).
+  set (h2 := mkH _ _ _ _).
+  assert (A : agree Q h h2).
+  { intros i Qi. unfold h2. simpl. rewrite !upd_other; auto; intros ->; tauto. }
+  split; [reflexivity|]. split; [unfold h2; simpl; now rewrite upd_same|].
+  split; [intros i N1 N2; unfold h2; simpl; now rewrite !upd_other by auto|].
+  split; [intros i N1; unfold h2; simpl; now rewrite upd_other by auto|]. split; [reflexivity|].
+  (* the graft's handle now denotes a subtree of the host *)
+  apply repr_unfold. split; [right; now left|].
+  exists (mkHN (hn_name root) (hn_com root) (hn_neigh root ++ [he_left hpe]) (hn_br root ++ [pe])).
+  split; [unfold h2; simpl; now rewrite upd_same|]. simpl.
+  split; auto. split; [right; right; auto|]. split; [exact Hc|].
+  apply (slots_mono Q).
+  { intros i Qi. now left. }
+  apply slots_add_par; auto.
+  eapply slots_frame; eauto.
+Qed.
